@@ -343,12 +343,23 @@ func (f *frame) callContract(ct *Contract, sig *types.Signature, args []Val, pos
 	f.callSiteAsserts(key, ord, args, pos)
 	for i := range ct.Requires {
 		c := ct.Requires[i]
-		t := x.evalClause(env, &c)
 		name := fmt.Sprintf("pre.%s#%d.%s", key, ord, clauseName(&c, i))
 		if !f.top {
 			name = fmt.Sprintf("pre.%s.%s", key, clauseName(&c, i))
 		}
-		f.assert(name, fmt.Sprintf("precondition of %s: %s", key, c.Text), t, nil, pos)
+		// one obligation per conjunct, so that a failure names what is missing
+		parts := SplitConj(c.Expr)
+		for j, pe := range parts {
+			pc := c
+			pc.Expr = pe
+			pn, txt := name, c.Text
+			if len(parts) > 1 {
+				pn = fmt.Sprintf("%s.%d", name, j+1)
+				txt = SpecString(pe)
+			}
+			t := x.evalClause(env, &pc)
+			f.assert(pn, fmt.Sprintf("precondition of %s: %s", key, txt), t, nil, pos)
+		}
 	}
 	pre := f.st.clone()
 	// havoc the modifies set
@@ -628,14 +639,32 @@ func (x *Exec) resolveModifies(env *Env, c *Clause) (out []modTarget) {
 			return []modTarget{mt}
 		}
 	case *SSel:
-		base := env.Eval(n.X)
-		pt, ok := under(base.T).(*types.Pointer)
-		if !ok {
-			sfail("modifies %s: base is not a pointer", c.Text)
+		// x.f, or x.s.f where s is a struct-valued field (embedded by value) of *x
+		names := []string{n.Name}
+		bx := n.X
+		base := env.Eval(bx)
+		for {
+			if _, isPtr := under(base.T).(*types.Pointer); isPtr {
+				break
+			}
+			inner, isSel := bx.(*SSel)
+			if _, isStruct := under(base.T).(*types.Struct); !isStruct || !isSel {
+				sfail("modifies %s: base is not a pointer", c.Text)
+			}
+			names = append([]string{inner.Name}, names...)
+			bx = inner.X
+			base = env.Eval(bx)
 		}
-		path, ft, ok := findField(pt.Elem(), n.Name)
-		if !ok {
-			sfail("modifies %s: no such field", c.Text)
+		pt := under(base.T).(*types.Pointer)
+		var path []int
+		ft := pt.Elem()
+		for _, nm := range names {
+			p1, t1, ok := findField(ft, nm)
+			if !ok {
+				sfail("modifies %s: no such field %s", c.Text, nm)
+			}
+			path = append(path, p1...)
+			ft = t1
 		}
 		fp := x.fieldAddrPath(base, pt.Elem(), path)
 		mt := modTarget{target: fp.S, text: c.Text}
